@@ -48,6 +48,8 @@ loadstate_t iobuffer::load_buffer(FILE *fin, bool ispadding)
   }
   if ((!ispadding) && readover)
   {
+    if (total == 0)
+      return NODATA; // no complete block left (empty or partial tail): publishing an empty READY buffer would strand the I/O thread
     isfinal = true;
     return FINAL;
   }
